@@ -14,6 +14,10 @@ def run(tier, rep):
     drivers = [EPISODE, [["run"]] * 4 + [["stop"]], [["reset"], ["step"], ["step_override"], ["step"], ["step_override"], ["stop"]],
                [["reset"], ["step"], ["step"], ["stop"], ["reset_carry"], ["step"], ["step"], ["stop"]]]
     fam_jobs = [(n, dict(spec=s, user=drivers[(i + sd) % 4], policy=POLS[(i // 3 + sd) % 3])) for i, (n, s) in enumerate(members)]
+    # warm-up with a partial per-node profile dict (profiling test-runs the step: only the listed nodes may be run)
+    for i, (n, s) in enumerate(members):
+        if i % 40 == 0:
+            fam_jobs.append((n + "|partial-profile", dict(spec=s, user=EPISODE, policy=POLS[i % 3], profile={sorted(s["nodes"])[0]: False})))
     deep = {}
     hs = {"L1": H.L1(16, 16), "L2": H.L2(16, 8), "H3": H.H3((1, 6))}
     if tier == "thorough":
